@@ -233,7 +233,7 @@ func coqData(b []byte) string {
 func coqHxWithData(b []byte) string {
 	if coqSharedData != nil {
 		if i := bytes.Index(b, coqSharedData); i >= 0 {
-			return "(" + coqHx(b[:i]) + " ++ d ++ " + coqHx(b[i+len(coqSharedData):]) + ")"
+			return "(" + coqHx(b[:i]) + " ++ d ++ " + coqHx(b[i+len(coqSharedData):]) + ")%list"
 		}
 	}
 	return coqHx(b)
@@ -898,11 +898,25 @@ func txcodecDriver(cfg Config, out *Out) error {
 	if cfg.Replay != "" {
 		i := 0
 		return readReplayInputs(cfg.Replay, func(raw json.RawMessage) error {
-			var in tcInput
-			if err := json.Unmarshal(raw, &in); err != nil {
+			var probe map[string]json.RawMessage
+			if err := json.Unmarshal(raw, &probe); err != nil {
 				return err
 			}
-			c, err := tcRunCase(fmt.Sprintf("replay-%d", i), in)
+			var c Case
+			var err error
+			if _, isUnwrap := probe["lookups"]; isUnwrap {
+				var in tcUnwrapInput
+				if err := json.Unmarshal(raw, &in); err != nil {
+					return err
+				}
+				c, err = tcRunUnwrap(fmt.Sprintf("replay-%d", i), in)
+			} else {
+				var in tcInput
+				if err := json.Unmarshal(raw, &in); err != nil {
+					return err
+				}
+				c, err = tcRunCase(fmt.Sprintf("replay-%d", i), in)
+			}
 			if err != nil {
 				return err
 			}
@@ -911,13 +925,48 @@ func txcodecDriver(cfg Config, out *Out) error {
 			return nil
 		})
 	}
+	// One draw from r per transaction, as before the lookup cases existed: the orchestrator runs a
+	// tier in batches whose seeds differ by the batch size, and splitmix64 streams of seeds s and
+	// s+k are the same stream k draws apart, so batches continue each other without overlap.
 	r := NewRng(cfg.Seed)
+	// partners and foreign transactions of the by-hash lookups: short wrappable
+	// transactions from the same generator (a stream of their own), refreshed as the run goes
+	pr := NewRng(cfg.Seed ^ 0x5eedc18)
+	partners := []tcInput{}
+	for len(partners) < 8 {
+		if in := tcGen(pr.Fork()); tcSmallWrappable(in) {
+			partners = append(partners, in)
+		}
+	}
 	for i := 0; i < cfg.N; i++ {
-		c, err := tcRunCase(fmt.Sprintf("s%d-%d", cfg.Seed, i), tcGen(r.Fork()))
+		cr := r.Fork()
+		in := tcGen(cr)
+		lr := cr.Fork()
+		c, err := tcRunCase(fmt.Sprintf("s%d-%d", cfg.Seed, i), in)
 		if err != nil {
 			return err
 		}
 		out.Emit(c)
+		if o, ok := c.Obs.(tcObs); ok && o.Res == 0 {
+			// the same transaction as the target of lookups by hash
+			p := tcPerm(lr, len(partners))
+			uin := tcUnwrapInput{Txs: []tcInput{in, partners[p[0]], partners[p[1]], partners[p[2]], partners[p[3]]}, Lookups: tcGenLookups(lr)}
+			uc, err := tcRunUnwrap(fmt.Sprintf("s%d-%d-unwrap", cfg.Seed, i), uin)
+			if err != nil {
+				return err
+			}
+			// quick tier: the property oracle judges every lookup; the Coq model is evaluated on the
+			// lookups of every third transaction (parsing the case terms dominates the run time).
+			// Thorough tier, corpus and replays: on all of them.
+			if cfg.Tier == "quick" && i%3 != 0 {
+				uc.Coq, uc.CoqList = "", ""
+				uc.Tags = append(uc.Tags, "unwrap:model-not-evaluated(quick tier)")
+			}
+			out.Emit(uc)
+			if tcSmallWrappable(in) {
+				partners[lr.Intn(len(partners))] = in
+			}
+		}
 	}
 	return nil
 }
